@@ -1643,6 +1643,13 @@ class Engine:
                 e2 = dict(fn.closure)
                 e2.update(env)
                 env = e2
+            # ghost state of the contract being verified stays visible inside inlined callees (their loop invariants may
+            # mention the ghost layout); ghosts are never assigned by code, so nothing has to be copied back
+            top = self.frames[0].contract if self.frames and self.frames[0].contract is not None else None
+            if top is not None and fn.mod is not None:
+                for g_ in list(getattr(top, 'ghost', {})) + list(getattr(top, 'ghost_init', {})):
+                    if g_ in st.env and g_ not in env:
+                        env[g_] = st.env[g_]
             saved_env, saved_out = st.env, st.out
             mod = fn.mod if fn.mod is not None else self.frame.mod
             fr = Frame(mod, fn.qual, self.frame.contract)
